@@ -134,6 +134,44 @@ theorem default_covers_4k_rects : ∀ p ∈ formatTable, ∀ (c : Colour) (x y w
     unfold TARGET_BUFFER_SIZE SrcConsts.TARGET_BUFFER_SIZE at hb
     unfold DEFAULT_MEMORY_LIMIT SrcConsts.DEFAULT_MEMORY_LIMIT; omega
 
+/-- **Raising the limit never introduces the memory-limit error** (allocator willing): a call that
+does not fail with `MemoryLimitExceeded` under `limit` does not fail with it under any larger limit,
+on any stream and from any reader position. -/
+theorem limit_monotone {f : Fam} (hf : f.WF) (c : Colour) (call : Call) {ops : List Op}
+    (hplan : plan f c call = .ok ops) (e : Env) (pats pats' : List (List Nat)) (pos pos' limit limit' : Nat)
+    (hgrant : C06.AllocatorGrants e) (hle : limit ≤ limit')
+    (h : (run e pats (plan f c call) pos limit).1 ≠ .memLimit) :
+    (run e pats' (plan f c call) pos' limit').1 ≠ .memLimit := by
+  rw [Ne, memory_limit_exceeded_iff hf c call hplan e pats pos limit hgrant] at h
+  rw [Ne, memory_limit_exceeded_iff hf c call hplan e pats' pos' limit' hgrant]
+  omega
+
+/-- **End to end at the default limit, full decode**: for every format of the table and every colour,
+a 4096×4096 decode is accepted and its run never ends in the memory-limit error, on any stream
+(`default_covers_4k` composed with `memory_limit_exceeded_iff`). -/
+theorem default_4k_never_memlimit : ∀ p ∈ formatTable, ∀ c ∈ allColours,
+    ∀ (e : Env) (pats : List (List Nat)) (pos : Nat), C06.AllocatorGrants e →
+    (run e pats (plan p.2 c (.full 4096 4096)) pos DEFAULT_MEMORY_LIMIT).1 ≠ .memLimit := by
+  intro p hp c hc e pats pos hgrant
+  have hcov := default_covers_4k p hp c hc
+  unfold covers at hcov
+  split at hcov
+  · next ops hplan =>
+    rw [Ne, memory_limit_exceeded_iff (C06.formatTable_wf p hp) c _ hplan e pats pos _ hgrant]
+    have := of_decide_eq_true hcov
+    omega
+  · exact absurd hcov (by decide)
+
+/-- **…and every accepted rect of a 4096×4096 surface** likewise never ends in the memory-limit error. -/
+theorem default_4k_rects_never_memlimit : ∀ p ∈ formatTable, ∀ (c : Colour) (x y w h : Nat) (ops : List Op),
+    x + w ≤ 4096 → y + h ≤ 4096 → plan p.2 c (.rect 4096 4096 x y w h) = .ok ops →
+    ∀ (e : Env) (pats : List (List Nat)) (pos : Nat), C06.AllocatorGrants e →
+    (run e pats (plan p.2 c (.rect 4096 4096 x y w h)) pos DEFAULT_MEMORY_LIMIT).1 ≠ .memLimit := by
+  intro p hp c x y w h ops hx hy hplan e pats pos hgrant
+  rw [Ne, memory_limit_exceeded_iff (C06.formatTable_wf p hp) c _ hplan e pats pos _ hgrant]
+  have := default_covers_4k_rects p hp c x y w h ops hx hy hplan
+  omega
+
 /-- the default limit is what the worst format needs at 4K plus less than 1 MiB: P010/P016 need
 32 MiB + the line buffer (64 KiB at the pinned commit) -/
 example : planNeed (plan (.biPlanar 2 4 2 2) (2, 1) (.full 4096 4096)) = 32 * 1024 * 1024 + TARGET_BUFFER_SIZE := by
